@@ -168,7 +168,7 @@ def variants(text, dumped):
         cnt = [0]
 
         def loc(m):
-            if rng.random() < 0.5 or m.group(1).startswith("?"):
+            if (cnt[0] >= 2 and rng.random() < 0.5) or m.group(1).startswith("?"):
                 return m.group(0)
             cnt[0] += 1
             return '<q%d:%s xmlns:q%d="%s"%s/>' % (cnt[0] % 2, m.group(1), cnt[0] % 2, NS, m.group(2))
@@ -185,6 +185,7 @@ def load_dump(path):
     return gds_impl.dump(NeuroMLLoader.load(path))
 
 
+FRESH = [0]
 res = []
 d = tempfile.mkdtemp(prefix="verif_c04_")
 try:
@@ -239,6 +240,24 @@ try:
                             cur = NeuroMLLoader.load(cf)
                             dumps.append(gds_impl.dump(cur))
                         ok = dumps[0] == dumps[1] == base and texts[0] == texts[1]
+                        # the bytes written do not depend on the interpreter's hash seed (set/dict iteration order)
+                        if ok and name == "namespace-prefix-local" and FRESH[0] < 3:
+                            FRESH[0] += 1
+                            import subprocess
+                            for hs in ("1", "7"):
+                                of = os.path.join(d, "fresh_%s.nml" % hs)
+                                env = dict(os.environ); env["PYTHONHASHSEED"] = hs
+                                code = ("import sys\nfrom neuroml.loaders import NeuroMLLoader\nfrom neuroml.writers import NeuroMLWriter\n"
+                                        "NeuroMLWriter.write(NeuroMLLoader.load(sys.argv[1]), sys.argv[2])\n")
+                                pr = subprocess.run([sys.executable, "-c", code, vf, of], env=env, capture_output=True, text=True, timeout=300)
+                                if pr.returncode != 0 or open(of).read() != texts[0]:
+                                    ok = False
+                                    e3 = {"name": name + ":fresh-process-bytes", "same": False,
+                                          "diff": ["the same document is written to different bytes by an interpreter started with PYTHONHASHSEED=%s" % hs],
+                                          "text": vt[:1500]}
+                                    r["variants"].append(e3)
+                                    break
+                            ok = True
                         e2 = {"name": name + ":write-reload", "same": ok}
                         if not ok:
                             e2["diff"] = ["document differs after write/reload" if dumps[0] != base else "bytes not stable"]
